@@ -184,6 +184,8 @@ def runPool (route : Bool) (nrS msbS sizeS portS reqS impl : String) : String :=
     if nr = 0 || nr > 64 || msb ≥ 64 || !(portS == "p" || portS == "n") || reqs.isEmpty then "bad-case" else
     if route && !reqs.all i64ok then "bad-case" else
     if !route && reqs.any (fun q => decide (q < 0 ∨ q ≥ 4294967296)) then "bad-case" else
+    -- the harness gave up: the pool kept changing while it was probed (no observation to judge)
+    if impl.trimAscii.toString == "unstable-pool" then "unstable-pool" else
     match words impl with
     | nrW :: haveW :: "|" :: obs =>
       match parseHave haveW with
